@@ -27,7 +27,7 @@ ASSUMPTIONS = [
     'transpose is not stated to carry the table type; type is not compared '
     'across transpose',
 ]
-REQUIRED = ['sort_order', 'sort', 'align_to', 'transpose', 'copy',
+REQUIRED = ['result_metadata_edits', 'sort_order', 'sort', 'align_to', 'transpose', 'copy',
             'update_ids', 'update_ids_refused', 'align_refused',
             'inverse_roundtrips', 'layout_csc_seen', 'layout_unsorted_seen',
             'objdtype_ids']
@@ -89,6 +89,25 @@ def make_table(ctx, spec, recipe, r, objids=False):
     return t
 
 
+def edit_result_md(ctx, res, t, before, desc, what):
+    """The result's metadata entries are its own: editing them through the
+    public API must not change the table it was derived from."""
+    for ax in ('sample', 'observation'):
+        md = res.metadata(axis=ax)
+        if md is None:
+            continue
+        ids = list(res.ids(axis=ax))
+        keys = sorted({k for e in md for k in e}, key=str)
+        res.add_metadata({i: {'__edited__': 1, **({keys[0]: '__over__'} if
+                                                  keys else {})}
+                          for i in ids}, axis=ax)
+        if keys:
+            res.del_metadata(keys=[keys[-1]], axis=ax)
+    oracles.unchanged(t, before, 'C06/%s-metadata-shared-with-source' % what,
+                      desc)
+    ctx.count('result_metadata_edits')
+
+
 def do_sort_order(ctx, t, spec, order, axis, desc, arg_kind='list'):
     before = snap.snap(t)
     arg = {'list': list, 'tuple': tuple,
@@ -103,6 +122,7 @@ def do_sort_order(ctx, t, spec, order, axis, desc, arg_kind='list'):
     back = res.sort_order(list(spec.ids(axis)), axis=axis)
     oracles.check_against_spec(back, spec, 'C06/sort_order-inverse', desc)
     ctx.count('inverse_roundtrips')
+    edit_result_md(ctx, res, t, before, desc, 'sort_order')
     return res
 
 
@@ -226,6 +246,7 @@ def run_random(ctx, index):
         oracles.check_against_spec(res, exp, 'C06/sort', desc)
         oracles.check_by_ids(res, exp, 'C06/sort', desc)
         oracles.unchanged(t, before, 'C06/sort-modified-receiver', desc)
+        edit_result_md(ctx, res, t, before, desc, 'sort')
         nontrivial = nontrivial and order != ids
     elif op == 'align_to':
         oo = list(spec.obs_ids)
@@ -250,6 +271,7 @@ def run_random(ctx, index):
         oracles.unchanged(t, before, 'C06/align_to-modified-receiver', desc)
         oracles.unchanged(other, obefore, 'C06/align_to-modified-other',
                           desc, 'argument')
+        edit_result_md(ctx, res, t, before, desc, 'align_to')
         nontrivial = (len(oo) >= 2 and oo != spec.obs_ids) or \
             (len(so) >= 2 and so != spec.samp_ids)
     elif op == 'align_bad':
